@@ -74,5 +74,30 @@ func extras() *cdrive.FlatFamily {
 		"this.a[0] = args.x", "this.a[3] = 9", "this.q = args.t.copy_from_slice!(s: this.a[1 ..])"), map[string]string{"kind": "copy slice<-array"})
 	f.Add(prog([]string{"q : base.u64", "a : array[8] base.u8"}, "t: slice base.u8", nil,
 		"this.q = this.a[.. 8].copy_from_slice!(s: args.t)", "this.a[2 .. 6].bulk_memset!(byte_value: 7)"), map[string]string{"kind": "copy8 + memset"})
+	// Loops: `while true` bodies that end in `break` (cgen lowers them to
+	// do { } while (0) unless they contain a `continue`), labelled loops with
+	// deep `continue` / `break` whose skipped statements are observable. The progen
+	// loops family has no terminating program of these shapes.
+	loop := func(kind string, body ...string) {
+		f.Add(prog([]string{"f : base.u32", "q : base.u32"}, "x: base.u32[..= 9]", []string{"i : base.u32", "j : base.u32"}, body...), map[string]string{"kind": kind})
+	}
+	loop("while-true continue break",
+		"i = args.x", "while true {", "i ~mod+= 1", "if i < 5 {", "continue", "}", "break", "}", "this.f = i")
+	loop("while-true break only",
+		"i = args.x", "while true {", "i ~mod+= 1", "if i < 5 {", "this.q = 3", "}", "break", "}", "this.f = i")
+	loop("inner while-true continue.inner break.inner",
+		"i = args.x", "while.outer i < 6 {", "i ~mod+= 1", "j = 0", "while.inner true {", "j ~mod+= 1", "if j < 3 {", "continue.inner", "}", "break.inner", "}.inner",
+		"this.f ~mod+= j", "}.outer", "this.q = i")
+	for _, jm := range []string{"continue.outer", "break.outer", "continue.inner", "break.inner"} {
+		loop("deep "+jm,
+			"i = args.x", "while.outer i < 6 {", "i ~mod+= 1", "j = 0", "while.inner j < 3 {", "j ~mod+= 1", "if j == 2 {", jm, "}", "this.q ~mod+= 1", "}.inner",
+			"this.f ~mod+= 7", "}.outer", "this.q ~mod+= i")
+		loop("deep "+jm+" from a while-true inner loop",
+			"i = args.x", "while.outer i < 6 {", "i ~mod+= 1", "j = 0", "while.inner true {", "j ~mod+= 1", "if j == 2 {", jm, "}", "if j > 3 {", "break.inner", "}", "}.inner",
+			"this.f ~mod+= j", "}.outer", "this.q ~mod+= i")
+		loop("deep "+jm+" from a do-while(0) inner loop",
+			"i = args.x", "while.outer i < 6 {", "i ~mod+= 1", "j = i", "while.inner true {", "j ~mod+= 1", "if j == 4 {", jm, "}", "this.q ~mod+= 1", "break.inner", "}.inner",
+			"this.f ~mod+= j", "}.outer", "this.q ~mod+= i")
+	}
 	return f
 }
